@@ -149,7 +149,20 @@ def case_direct(ctx, rng, idx):
     # the k-th and (k+1)-th inverse gains
     a = np.sort(N0 / (Es * g))
     k = int(rng.integers(1, n + 1))
-    if rng.random() < 0.7 and n > 1 and gclass not in ("equal",):
+    ptmode = "free"
+    if idx % 5 == 4 and n > 1:
+        # the budget that exactly fills the k best channels up to the next
+        # one: the switch-off decision and the remainder are both at a
+        # rounding boundary (summed in either order)
+        ptmode = "boundary"
+        kk = int(rng.integers(1, n))
+        terms = a[kk] - a[:kk]
+        Pt = float([sum(terms), np.sum(terms), np.sum(terms[::-1]),
+                    float(np.sum(terms.astype(np.longdouble)))][int(rng.integers(0, 4))])
+        if not (Pt > 0 and np.isfinite(Pt)):
+            Pt = 10.0 ** rng.uniform(-4, 4)
+            ptmode = "free"
+    elif rng.random() < 0.7 and n > 1 and gclass not in ("equal",):
         hi = a[k] if k < n else a[-1] * 10.0 ** rng.uniform(0.1, 3)
         lo = a[k - 1]
         mu = lo + (hi - lo) * rng.uniform(0.05, 0.95)
@@ -170,9 +183,11 @@ def case_direct(ctx, rng, idx):
             pr, mur, kact, _ = ref_wf(g, Pt, N0, Es)
             # permutation equivariance
             perm = rng.permutation(n)
-            monitors.ACTIVE[0] = None           # (inner call checked separately)
-            p2, mu2 = WF.doWF(g[perm], Pt, N0, Es)
-            monitors.ACTIVE[0] = ctx
+            STATE["tag"] = "permuted"           # the contract watches this call too
+            try:
+                p2, mu2 = WF.doWF(g[perm], Pt, N0, Es)
+            finally:
+                STATE["tag"] = ""
             tol = 64 * n * EPS * (float(mur) + Pt + float(np.max(N0 / (Es * g))
                                                           if kact == n else mur))
             ctx.ev("permutation-equivariant",
@@ -183,6 +198,7 @@ def case_direct(ctx, rng, idx):
             if n >= 2 or Es != 1.0:
                 ctx.sig(n, gclass, int(kact), Es == 1.0, int(np.floor(np.log10(Pt))))
             ctx.tally("active=%s" % ("all" if kact == n else "some-off"))
+            ctx.tally("budget=" + ptmode)
             ctx.sample(gclass, {"gains": g, "Pt": Pt, "N0": N0, "Es": Es,
                                 "p": p, "mu": mu, "active": int(kact)})
     finally:
